@@ -28,6 +28,8 @@ def check(ctx):
     ctx.doc('R5', 'percolation: target = start + dims * mask, tiling 1 + mask of the same mask; strict improvement from +inf; '
                   'original dims restored on the returned path')
     ctx.doc('R6', 'neighbour voxel = (node + move) modulo the shape of the energy array, before membership test and edge insertion')
+    ctx.doc('R7', '[C20.R7] a hand-rolled memo table is keyed on every parameter the stored value depends on (a graph cached per '
+                  'threshold must not be returned for the other neighbourhood mode)')
     ctx.floor('R1', 2)
     ctx.floor('R2', 5, '5 methods')
     ctx.floor('R3', 1)
@@ -40,6 +42,8 @@ def check(ctx):
     check_tables(ctx)
     check_percolation(ctx)
 
+    from .C20 import check_handrolled_memo
+    check_handrolled_memo(ctx, 'R7')
 
 def check_moves(ctx, R1='R1', R6='R6'):
     fi = ctx.fn(FEG)
